@@ -8,7 +8,7 @@ Import ListNotations.
 Local Open Scope N_scope.
 
 Lemma retag_fields : forall e,
-  e_idx (retag e) = e_idx e /\ e_ts (retag e) = e_ts e /\ e_exp (retag e) = e_exp e /\
+  e_idx (retag e) = e_idx e /\ e_ts (retag e) = e_ts e /\ e_exp (retag e) = e_exp e /\ e_rev (retag e) = e_rev e /\
   e_payload (retag e) = e_payload e /\ e_kind (retag e) = KMoD.
 Proof. intros e. repeat split. Qed.
 
@@ -38,11 +38,12 @@ Section ModProofs.
   Variable apply_cmd : S -> entry -> option (S * list O).
   Variable apply_mod : S -> entry -> S.
   Variable exp_of : S -> N.
+  Variable rev_of : S -> N.
 
   Notation tot := (apply_total S O apply_cmd apply_mod).
-  Notation ag := (apply_guarded S O B apply_cmd apply_mod exp_of).
-  Notation ae := (apply_entry S O B tot exp_of).
-  Notation rp := (run_process S O B apply_cmd apply_mod exp_of).
+  Notation ag := (apply_guarded S O B apply_cmd apply_mod exp_of rev_of).
+  Notation ae := (apply_entry S O B tot exp_of rev_of).
+  Notation rp := (run_process S O B apply_cmd apply_mod exp_of rev_of).
 
   (* C07_mark: the process dies at an entry iff the handler panics on a not-yet-marked command; then
      the durable log is the old one with exactly that entry re-tagged *)
@@ -141,7 +142,7 @@ Section ModProofs.
   Variable marshal : S -> N -> B.
   Variable unmarshal : B -> option (S * N).
   Hypothesis roundtrip : forall s k, unmarshal (marshal s k) = Some (s, k).
-  Hypothesis exp_frame : forall s e, sets_exp e = false -> exp_of (fst (tot s e)) = exp_of s.
+  Hypothesis exp_frame : forall s e, sets_exp (rev_of s) e = false -> exp_of (fst (tot s e)) = exp_of s.
   Hypothesis exp_init : eff_exp (exp_of init) = ten_minutes.
 
   Variable vr : variant.
@@ -150,12 +151,12 @@ Section ModProofs.
 
   Theorem mod_replay_sched : forall L k sigma, log_ok L ->
     (forall e, In e L -> e_idx e = k -> stored_kind e = true) ->
-    schedule_ok S O B init tot marshal unmarshal exp_of vr (mark k L) sigma (world0 S O B init) ->
-    let w := run S O B init tot marshal unmarshal exp_of vr (mark k L) sigma (world0 S O B init) in
+    schedule_ok S O B init tot marshal unmarshal exp_of rev_of vr (mark k L) sigma (world0 S O B init) ->
+    let w := run S O B init tot marshal unmarshal exp_of rev_of vr (mark k L) sigma (world0 S O B init) in
     eqm (server (w_fsm w)) (replay S O init tot (without k (firstn (w_applied w) L))).
   Proof.
     intros L k sigma HL Hcmd Hok w.
-    pose proof (fsm_state S O B init tot marshal unmarshal exp_of roundtrip exp_frame exp_init vr Hd3 Hd15
+    pose proof (fsm_state S O B init tot marshal unmarshal exp_of rev_of roundtrip exp_frame exp_init vr Hd3 Hd15
                           (mark k L) sigma (mark_log_ok k L HL) Hok) as Hst.
     unfold reached in Hst. fold w in Hst. rewrite Hst. unfold replay. rewrite mark_firstn.
     apply mod_replay; [apply eqm_refl|].
@@ -186,21 +187,21 @@ Proof.
   unfold apply_total, t_apply_cmd, t_apply_mod. destruct (e_kind e); destruct (t_panics e); cbn; auto.
 Qed.
 
-Definition t_c (i : N) : entry := mkEntry i (Z.of_N i) KCmd None "x".
-Definition t_p (i : N) : entry := mkEntry i (Z.of_N i) KCmd None "PANIC".
+Definition t_c (i : N) : entry := mkEntry i (Z.of_N i) KCmd None 0 "x".
+Definition t_p (i : N) : entry := mkEntry i (Z.of_N i) KCmd None 0 "PANIC".
 Definition t_log : list entry := [t_c 1; t_p 2; t_c 3; t_p 4; t_c 5].
 Definition t_f0 := fresh_fsm tS (list N) unit (([], 0) : tS) [].
 
 Example t_first_life :
-  run_process tS (list N) unit t_apply_cmd t_apply_mod t_exp_of t_log t_f0 t_log
+  run_process tS (list N) unit t_apply_cmd t_apply_mod t_exp_of t_exp_of t_log t_f0 t_log
   = Exited tS (list N) unit 2 (mark 2 t_log).
 Proof. vm_compute. reflexivity. Qed.
 Example t_second_life :
-  run_process tS (list N) unit t_apply_cmd t_apply_mod t_exp_of (mark 2 t_log) t_f0 (mark 2 t_log)
+  run_process tS (list N) unit t_apply_cmd t_apply_mod t_exp_of t_exp_of (mark 2 t_log) t_f0 (mark 2 t_log)
   = Exited tS (list N) unit 4 (mark 4 (mark 2 t_log)).
 Proof. vm_compute. reflexivity. Qed.
 Example t_third_life : exists f,
-  run_process tS (list N) unit t_apply_cmd t_apply_mod t_exp_of (mark 4 (mark 2 t_log)) t_f0 (mark 4 (mark 2 t_log))
+  run_process tS (list N) unit t_apply_cmd t_apply_mod t_exp_of t_exp_of (mark 4 (mark 2 t_log)) t_f0 (mark 4 (mark 2 t_log))
   = Finished tS (list N) unit f /\ server f = ([1; 3; 5], 5) /\ map fst (outstore f) = [1; 3; 5].
 Proof. eexists. split; [vm_compute; reflexivity|]. split; reflexivity. Qed.
 Example t_marked_only_k : map e_kind (mark 2 t_log) = [KCmd; KMoD; KCmd; KCmd; KCmd] /\
